@@ -133,4 +133,28 @@ theorem hrpExpand_valid (hrp : List UInt8) : ∀ x ∈ hrpExpand hrp, x < 32 := 
     have h31 : (31 : UInt8).toNat = 2 ^ 5 - 1 := by decide
     rw [h31, Nat.and_two_pow_sub_one_eq_mod]; omega
 
+/-- core of the single-symbol theorems: over valid symbols, changing one symbol changes the residue -/
+theorem polymod_single_change (pre post : List UInt8) (a b : UInt8) (hpre : ∀ x ∈ pre, x < 32)
+    (hpost : ∀ x ∈ post, x < 32) (ha : a < 32) (hb : b < 32) (hab : a ≠ b) :
+    polymod (pre ++ a :: post) ≠ polymod (pre ++ b :: post) := by
+  intro h
+  unfold polymod at h
+  rw [List.foldl_append, List.foldl_append, List.foldl_cons, List.foldl_cons] at h
+  have hs : (List.foldl polymodStep 1 pre).toNat < 2 ^ 30 := foldl_lt _ hpre _ (by decide)
+  have := foldl_inj post hpost _ _ (step_lt _ a ha) (step_lt _ b hb) h
+  exact hab (step_inj_sym ha hb this)
+
+/-- a byte is its high three and low five bits -/
+theorem byte_split {c c' : UInt8} (hh : c >>> 5 = c' >>> 5) (hl : c &&& 31 = c' &&& 31) : c = c' := by
+  have h1 := congrArg UInt8.toNat hh
+  have h2 := congrArg UInt8.toNat hl
+  rw [UInt8.toNat_shiftRight, UInt8.toNat_shiftRight] at h1
+  rw [UInt8.toNat_and, UInt8.toNat_and] at h2
+  have h5 : (5 : UInt8).toNat % 8 = 5 := by decide
+  have h31 : (31 : UInt8).toNat = 2 ^ 5 - 1 := by decide
+  rw [h5, Nat.shiftRight_eq_div_pow, Nat.shiftRight_eq_div_pow] at h1
+  rw [h31, Nat.and_two_pow_sub_one_eq_mod, Nat.and_two_pow_sub_one_eq_mod] at h2
+  apply UInt8.toNat_inj.mp
+  omega
+
 end Ldk.Prim.Bech32
